@@ -3,14 +3,22 @@ package p20
 import (
 	"bytes"
 	"encoding/hex"
+	"encoding/json"
 	"fmt"
+	"io"
 	"os"
+	"os/exec"
 	"path/filepath"
 	"regexp"
 	"runtime"
 	"strings"
 	"sync"
+	"sync/atomic"
 	"testing"
+
+	aperlogger "free5gclib/aper/logger"
+	naslogger "free5gclib/nas/logger"
+	"github.com/sirupsen/logrus"
 
 	"free5gclib/nas"
 	"free5gclib/nas/nasMessage"
@@ -449,4 +457,150 @@ func TestSelfCrypto(t *testing.T) {
 	if err := refper.SelfTest(); err != nil {
 		t.Fatal(err)
 	}
+}
+
+// ---------------------------------------------------------------------------------------
+// Cold start. TestC20_Concurrent computes its expected results first, in the same process — by the time the goroutines
+// start, everything that initialises itself on first use (tables, caches, loggers' call-site maps) is warm. Here every
+// case runs in a FRESH process (this test binary re-executed) that does the concurrent phase first and the sequential
+// one afterwards, optionally with the libraries' loggers at debug level.
+
+type c20ColdCase struct {
+	C   c20Case `json:"case"`
+	Log string  `json:"log_level,omitempty"` // logrus level of the APER and NAS loggers in the child ("" = default)
+}
+
+func genC20Cold(t *rapid.T) c20ColdCase {
+	g := rapid.SampledFrom([]int{4, 8, 16, 16}).Draw(t, "goroutines")
+	cc := c20ColdCase{C: c20Case{Procs: rapid.SampledFrom([]int{1, 4, 16}).Draw(t, "gomaxprocs")}}
+	cc.Log = rapid.SampledFrom([]string{"", "", "debug", "trace"}).Draw(t, "log_level")
+	// all goroutines begin with the same kind of operation: the first use of that code in the process is concurrent
+	first := rapid.SampledFrom(c20Kinds).Draw(t, "first_kind")
+	firstAlg := rapid.IntRange(0, 2).Draw(t, "first_alg")
+	for i := 0; i < g; i++ {
+		n := rapid.IntRange(2, 8).Draw(t, fmt.Sprintf("n%d", i))
+		var s []c20Op
+		for k := 0; k < n; k++ {
+			kind, alg := first, firstAlg
+			if k > 0 {
+				kind, alg = rapid.SampledFrom(c20Kinds).Draw(t, "kind"), rapid.IntRange(0, 2).Draw(t, "alg")
+			}
+			s = append(s, c20Op{Kind: kind, Seed: rapid.Uint64().Draw(t, "seed"), Alg: alg, Len: rapid.IntRange(1, 300).Draw(t, "len")})
+		}
+		cc.C.Scripts = append(cc.C.Scripts, s)
+	}
+	return cc
+}
+
+type c20ColdVerdict struct {
+	Key string `json:"key"`
+	Err string `json:"err"`
+}
+
+func TestC20_ColdChild(t *testing.T) {
+	path := os.Getenv("C20_COLD_CASE")
+	if path == "" {
+		t.Skip("helper process of TestC20_Cold")
+	}
+	var cc c20ColdCase
+	raw, err := os.ReadFile(path)
+	if err != nil {
+		t.Fatal(err)
+	}
+	if err := json.Unmarshal(raw, &cc); err != nil {
+		t.Fatal(err)
+	}
+	if lv, err := logrus.ParseLevel(cc.Log); err == nil && cc.Log != "" {
+		for _, lg := range []*logrus.Logger{aperlogger.AperLog.Logger, naslogger.SecurityLog.Logger} {
+			lg.SetLevel(lv)
+			lg.SetOutput(io.Discard)
+		}
+	}
+	c := cc.C
+	seqSeed := uint64(len(c.Scripts))*1000003 + uint64(c.Procs)
+	g := len(c.Scripts)
+	got := make([][]string, g)
+	runtime.GOMAXPROCS(c.Procs)
+	var wg sync.WaitGroup
+	start := make(chan struct{})
+	for i := range c.Scripts {
+		wg.Add(1)
+		go func(i int) {
+			defer wg.Done()
+			u := newUE(i, seqSeed)
+			<-start
+			for _, op := range c.Scripts[i] {
+				got[i] = append(got[i], runOp(u, op))
+			}
+		}(i)
+	}
+	close(start) // the FIRST use of the libraries in this process
+	wg.Wait()
+	out := c20ColdVerdict{}
+	for i := range c.Scripts {
+		u := newUE(i, seqSeed)
+		for k, op := range c.Scripts[i] {
+			want := runOp(u, op)
+			if out.Key == "" && got[i][k] != want {
+				out.Key = fmt.Sprintf("cold-start:diverged:%s/alg%d", op.Kind, op.Alg)
+				out.Err = fmt.Sprintf("goroutine %d op %d (%s alg %d): the result of the concurrent first use %.80s differs from the sequential result %.80s", i, k, op.Kind, op.Alg, got[i][k], want)
+			}
+		}
+	}
+	b, _ := json.Marshal(out)
+	if err := os.WriteFile(path+".out", b, 0644); err != nil {
+		t.Fatal(err)
+	}
+}
+
+var coldSeq int64
+
+func c20ColdOracle(cc c20ColdCase) ev.Verdict {
+	v := ev.Verdict{NT: true, Classes: []string{"cold-start", fmt.Sprintf("cold:first=%s", cc.C.Scripts[0][0].Kind), "cold:log=" + cc.Log, fmt.Sprintf("gomaxprocs=%d", cc.C.Procs)}}
+	dir := filepath.Join(ev.WorkDir(), "c20cold")
+	_ = os.MkdirAll(dir, 0755)
+	path := filepath.Join(dir, fmt.Sprintf("case-%d-%d.json", os.Getpid(), atomic.AddInt64(&coldSeq, 1)))
+	raw, _ := json.Marshal(cc)
+	if err := os.WriteFile(path, raw, 0644); err != nil {
+		panic(err)
+	}
+	defer os.Remove(path)
+	defer os.Remove(path + ".out")
+	before, _ := raceLog()
+	cmd := exec.Command(os.Args[0], "-test.run", "^TestC20_ColdChild$", "-test.timeout", "120s")
+	cmd.Env = append(os.Environ(), "C20_COLD_CASE="+path)
+	cmd.Dir = filepath.Dir(os.Args[0])
+	outb, err := cmd.CombinedOutput()
+	res, rerr := os.ReadFile(path + ".out")
+	if rerr != nil {
+		// the child died: a fatal error of the Go runtime (concurrent map writes, ...) or a crash in library code
+		msg := string(outb)
+		key := "cold-start:process-death"
+		for _, marker := range []string{"concurrent map writes", "concurrent map read and map write", "concurrent map iteration and map write"} {
+			if strings.Contains(msg, marker) {
+				key = "cold-start:fatal:" + marker
+			}
+		}
+		if len(msg) > 1500 {
+			msg = msg[:1500]
+		}
+		v.Key, v.Err = key, fmt.Errorf("the fresh process died during the concurrent first use (exit: %v):\n%s", err, msg)
+		return v
+	}
+	var cv c20ColdVerdict
+	_ = json.Unmarshal(res, &cv)
+	if cv.Key != "" {
+		v.Key, v.Err = cv.Key, fmt.Errorf("%s", cv.Err)
+		return v
+	}
+	if after, key := raceLog(); after > before {
+		v.Key = "race:" + key
+		v.Err = fmt.Errorf("the race detector reported a data race in the fresh process (first repo frame %s)", key)
+	}
+	return v
+}
+
+func TestC20_Cold(t *testing.T) {
+	r := ev.New(t, "C20", "TestC20_Cold")
+	ev.Run(t, r, genC20Cold, c20ColdOracle)
 }
